@@ -1,5 +1,5 @@
 SPECIFICATION Spec
 CONSTANTS
   Dev = {}
-INVARIANTS ActiveBoth Interchangeable Emit
+INVARIANTS Emit ActiveBoth Interchangeable
 CHECK_DEADLOCK FALSE
